@@ -380,9 +380,19 @@ func TestC15_CallerHeaders(t *testing.T) {
 		kid := rapid.SampledFrom([]string{"", "key-1"}).Draw(t, "kid")
 		extra := rapid.SampledFrom([]jws.Headers{nil, {"b64": false}, {"b64": true}, {"typ": "JWT"}, {"cty": "json", "b64": false},
 			{"b64": false, "crit": []string{"b64"}}, {"b64": true, "crit": []interface{}{"b64"}}, {"typ": "JWT", "crit": []string{"typ"}}}).Draw(t, "extra")
-		sig, err := jwsutil.NewJWS(extra, nil, payload, libSignerFor(k, k.Type.Alg(), kid))
+		signer := libSignerFor(k, k.Type.Alg(), kid)
+		sig, err := jwsutil.NewJWS(extra, nil, payload, signer)
 		if err != nil {
 			t.Fatalf("C15 NewJWS(%v): %v", extra, err)
+		}
+		// a signer is good for any number of signatures: making another one does not touch the first
+		if rapid.Bool().Draw(t, "signerUsedAgain") {
+			if _, err := jwsutil.NewJWS(extra, nil, append([]byte("another payload "), payload...), signer); err != nil {
+				t.Fatalf("C15 second NewJWS with the same signer: %v", err)
+			}
+			if _, err := signer.Sign([]byte("and a bare signature")); err != nil {
+				t.Fatalf("C15 Sign: %v", err)
+			}
 		}
 		compact, err := sig.SerializeCompact(false)
 		if err != nil {
